@@ -68,6 +68,12 @@ class PEval(object):
             self.block(fnode.body, env, depth)
         except _Return as r:
             return r.v
+        except Unknown:
+            raise
+        except RecursionError:
+            raise Unknown('recursion')
+        except Exception as e:       # an operation applied to a symbolic value (tuple(Sym), len(Sym), ...)
+            raise Unknown('%s: %s' % (type(e).__name__, e))
         return None
 
     def block(self, stmts, env, depth):
